@@ -166,7 +166,7 @@ class Executor:
         self.encoded = {}     # fn name -> hash (functions whose MIR was executed)
         self.models_used = set()
         self.seed = 0
-        self.query_timeout_s = float(os.environ.get('VERIF_QUERY_TIMEOUT_S', '60'))
+        self.query_timeout_s = float(os.environ.get('VERIF_QUERY_TIMEOUT_S', '120'))
         self._fcache = {}
         self.model_hits = 0
 
@@ -190,7 +190,7 @@ class Executor:
         if r == z3.unknown:
             # arithmetic-heavy bit-vector queries (division/remainder by constants): cvc5's integer encoding can refute in seconds
             # what bit-blasting does not finish; only its `unsat` is used (a model is always taken from z3)
-            t = time.time(); r2 = cvc5_unsat(s.to_smt2(), 60); self.solver_time += time.time() - t
+            t = time.time(); r2 = cvc5_unsat(s.to_smt2(), 120); self.solver_time += time.time() - t
             if r2:
                 self.cvc5_unsat = getattr(self, 'cvc5_unsat', 0) + 1
                 return z3.unsat, s
@@ -505,6 +505,8 @@ class Executor:
                 return st.env[key]
         m = re.match(r'^(?:std::result::|core::result::)?Result::<.*>::(Ok|Err)\(\(\)\)$', txt)
         if m: return Adt('Result', m.group(1), [UNIT])
+        m = re.match(r'^(?:std::result::|core::result::)?Result::<.*>::(Ok|Err)\((?:std::fmt::|core::fmt::)?Error\)$', txt)
+        if m: return Adt('Result', m.group(1), [Adt('FmtError', None, [])])
         if txt == 'true': return Bool(True)
         if txt == 'false': return Bool(False)
         if txt == '()': return UNIT
